@@ -117,3 +117,129 @@ def covered_span(gen, raw):
     """(start, end) byte offsets of the CRC-covered bytes plus the check bytes."""
     start = 2 if gen == 4 else 14
     return start, len(raw)
+
+
+# ------------------------------------------------- random decodable frames
+
+def _rtimer(rnd):
+    return {"disabled": rnd.random() < 0.5, "hour": rnd.randint(0, 23),
+            "minute": rnd.randint(0, 59)}
+
+
+def _rname(rnd, n):
+    s = rnd.choice(["Living", "Küche", "Büro", "Z", "", "Bed 1", "寝室", "Master", "x" * n])
+    while len(s.encode()) > n:
+        s = s[:-1]
+    return s
+
+
+def _rmodes(rnd):
+    return {k: rnd.random() < 0.7 for k in ("auto", "heat", "dry", "fan", "cool")}
+
+
+def _rfans(rnd):
+    return {k: rnd.random() < 0.7 for k in ("auto", "quiet", "low", "medium", "high",
+                                            "powerful", "turbo", "intelligent_auto")}
+
+
+def _rtemp(rnd):
+    return rnd.choice([rnd.randint(0, 2000), rnd.randint(0, 2047), 500, 0, 2000, 2001, 2047])
+
+
+def random_status_frame(gen, rnd, pid=None):
+    """(kind, raw): a well-formed console->client frame with defined enum codes
+    and otherwise random field values (incl. sentinels)."""
+    pid = rnd.randint(0, 255) if pid is None else pid
+    if gen == 4:
+        k = rnd.choice(["group_status", "ac_status", "ability", "names", "version", "error",
+                        "timer_status"])
+        if k == "group_status":
+            recs = [R.b4_group_status_record(_g4(
+                rnd.randint(0, 15), power=rnd.choice(["off", "on", "turbo"]),
+                control_method=rnd.choice(["temperature", "damper"]),
+                damper=rnd.randint(0, 127), battery_low=rnd.random() < 0.5,
+                turbo_support=rnd.random() < 0.5, set_point_raw=rnd.randint(0, 63),
+                sensor=rnd.random() < 0.7,
+                temp_raw11=rnd.choice([None, _rtemp(rnd), _rtemp(rnd)]),
+                spill=rnd.random() < 0.5)) for _ in range(rnd.randint(1, 6))]
+            return k, R.frame(4, TO, STD, pid, 0x2B, b"".join(recs))
+        if k == "ac_status":
+            recs = [R.b4_ac_status_record(_a4(
+                rnd.randint(0, 3), power=rnd.choice(["off", "on"]),
+                mode_code=rnd.choice([0, 1, 2, 3, 4, 8, 9]), fan_code=rnd.randint(0, 6),
+                spill=rnd.random() < 0.5, timer=rnd.random() < 0.5,
+                set_point=rnd.randint(0, 63), temp_raw11=rnd.choice([None, _rtemp(rnd)]),
+                error=rnd.choice([0, 0, rnd.randint(0, 65535)])))
+                for _ in range(rnd.randint(1, 4))]
+            return k, R.frame(4, TO, STD, pid, 0x2D, b"".join(recs))
+        if k == "ability":
+            recs = [R.b4_ability_record(
+                {"ac": a, "name": _rname(rnd, 16), "start": rnd.randint(0, 15),
+                 "count": rnd.randint(0, 16), "modes": _rmodes(rnd), "fans": _rfans(rnd),
+                 "min_sp": rnd.randint(0, 255), "max_sp": rnd.randint(0, 255),
+                 "groups": rnd.choice([None, {g for g in range(16) if rnd.random() < 0.4}])})
+                for a in range(rnd.randint(1, 4))]
+            return k, R.frame(4, TO, EXT, pid, 0x1F, R.ext(0xFF11, b"".join(recs)))
+        if k == "names":
+            gs = rnd.sample(range(16), rnd.randint(1, 8))
+            return k, R.frame(4, TO, EXT, pid, 0x1F, R.ext(0xFF12, b"".join(
+                bytes([g]) + R._name_fixed(_rname(rnd, 8), 8) for g in gs)))
+        if k == "version":
+            return k, R.frame(4, TO, EXT, pid, 0x1F, R.ext(0xFF30, R.version_body(
+                rnd.random() < 0.5, rnd.choice([["1.3.3"], ["1.3.3", "1.3.2"], ["2"]]), "|")))
+        if k == "error":
+            return k, R.frame(4, TO, EXT, pid, 0x1F, R.ext(0xFF10, R.error_body(
+                rnd.randint(0, 3), rnd.choice([None, "ER: FFFE", "E1"]))))
+        t = bytearray(32)
+        for a in range(4):
+            t[8 * a:8 * a + 4] = R.timer_bytes(_rtimer(rnd)) + R.timer_bytes(_rtimer(rnd))
+        return k, R.frame(4, TO, STD, pid, 0x37, bytes(t))
+    k = rnd.choice(["zone_status", "ac_status", "ability", "names", "version", "error",
+                    "timer_status"])
+    if k == "zone_status":
+        st = rnd.choice([8, 8, 8, 9, 10, 14])
+        recs = [R.b5_zone_status_record(_z5(
+            rnd.randint(0, 15), power=rnd.choice(["off", "on", "turbo"]),
+            control_method=rnd.choice(["temperature", "damper"]), damper=rnd.randint(0, 127),
+            sp_raw=rnd.choice([0xFF, rnd.randint(0, 250), rnd.randint(0, 255)]),
+            sensor=rnd.random() < 0.7, temp_raw11=_rtemp(rnd), spill=rnd.random() < 0.5,
+            battery_low=rnd.random() < 0.5), st, rnd.randint(0, 255))
+            for _ in range(rnd.randint(0, 6))]
+        return k, R.frame(5, TO, STD, pid, 0xC0, R.c0(0x21, st, recs))
+    if k == "ac_status":
+        st = rnd.choice([8, 10, 10, 12, 14])
+        recs = [R.b5_ac_status_record(_a5(
+            rnd.randint(0, 15), power_code=rnd.choice([0, 1, 2, 3, 5]),
+            mode_code=rnd.choice([0, 1, 2, 3, 4, 8, 9]),
+            fan_code=rnd.choice([0, 1, 2, 3, 4, 5, 6, 9, 10, 11, 12, 13, 14]),
+            sp_raw=rnd.choice([rnd.randint(0, 250), rnd.randint(0, 255)]),
+            turbo=rnd.random() < 0.5, bypass=rnd.random() < 0.5, spill=rnd.random() < 0.5,
+            timer=rnd.random() < 0.5, temp_raw11=_rtemp(rnd),
+            error=rnd.choice([0, 0, rnd.randint(0, 65535)])), st, rnd.randint(0, 255))
+            for _ in range(rnd.randint(0, 4))]
+        return k, R.frame(5, TO, STD, pid, 0xC0, R.c0(0x23, st, recs))
+    if k == "ability":
+        recs = [R.b5_ability_record(
+            {"ac": a, "name": _rname(rnd, 16), "start": rnd.randint(0, 15),
+             "count": rnd.randint(0, 16), "modes": _rmodes(rnd), "fans": _rfans(rnd),
+             "min_cool": rnd.randint(0, 255), "max_cool": rnd.randint(0, 255),
+             "min_heat": rnd.randint(0, 255), "max_heat": rnd.randint(0, 255)})
+            for a in range(rnd.randint(1, 4))]
+        return k, R.frame(5, TO, EXT, pid, 0x1F, R.ext(0xFF11, b"".join(recs)))
+    if k == "names":
+        zs = rnd.sample(range(16), rnd.randint(1, 8))
+        body = b""
+        for z in zs:
+            n = _rname(rnd, 16).encode()
+            body += bytes([z, len(n)]) + n
+        return k, R.frame(5, TO, EXT, pid, 0x1F, R.ext(0xFF13, body))
+    if k == "version":
+        return k, R.frame(5, TO, EXT, pid, 0x1F, R.ext(0xFF30, R.version_body(
+            rnd.random() < 0.5, rnd.choice([["1.0.3"], ["1.0.3", "1.0.2"], ["2"]]), ",")))
+    if k == "error":
+        return k, R.frame(5, TO, EXT, pid, 0x1F, R.ext(0xFF10, R.error_body(
+            rnd.randint(0, 15), rnd.choice([None, "ER: 12", "E1"]))))
+    st = rnd.choice([9, 9, 10, 12])
+    recs = [bytes([rnd.randint(0, 15)]) + R.timer_bytes(_rtimer(rnd)) + R.timer_bytes(
+        _rtimer(rnd)) + bytes(st - 5) for _ in range(rnd.randint(0, 4))]
+    return k, R.frame(5, TO, STD, pid, 0xC0, R.c0(0x33, st, recs))
